@@ -227,3 +227,28 @@ def gen_tables(rng: random.Random, big: bool):
     if rng.random() < 0.3:
         src.append({"k": "Alias", "m": rng.choice(leaves), "src": "T2"})
     return src, mothers
+
+
+def gen_c08(rng: random.Random, big: bool):
+    """Decay blocks with several CopyDecay statements - two copies of one source, redefinitions of a copy,
+    copies without a source, a copy used as the source of a CDecay"""
+    mothers = [f"P{i}" for i in range(rng.randint(1, 4))]
+    src = []
+    for m in mothers:
+        lines = []
+        for _ in range(rng.randint(0, 4 if big else 2)):
+            lines.append({"bf": f"n{rng.randint(1, 6)}", "ds": [rng.choice(["d0", "d1", "d2"] + mothers) for _ in range(rng.randint(0, 4))],
+                          "ph": rng.random() < 0.3, "mk": "model", "mn": f"M{rng.randint(1, 3)}",
+                          "ps": _params(rng, 3, ["w0", "w1"], ["n1", "n2", "n3"])})
+        src.append({"k": "Decay", "m": m, "lines": lines})
+    copies = [f"cp{i}" for i in range(4)]
+    for _ in range(rng.randint(1, 5)):
+        src.append({"k": "CopyDecay", "m": rng.choice(copies), "src": rng.choice(mothers + ["nosuch"])})
+    if rng.random() < 0.5:
+        c = rng.choice(copies)
+        src.append({"k": "ChargeConj", "m": c, "src": c + "bar"})
+        src.append({"k": "CDecay", "m": c + "bar"})
+    if rng.random() < 0.3:
+        src.append({"k": "Define", "m": "w0", "v": "n2"})
+    rng.shuffle(src)
+    return src, {}, True
